@@ -46,16 +46,16 @@ func sweepSize(maxKDC int) int {
 func Meta() core.Meta {
 	return core.Meta{
 		Engine: "c12", Property: "C12", Level: "fault_enumeration",
-		Rule: "case = one run: a behaviour from {answers, refuses, closes early, silent, KRB-ERROR, response-too-big on UDP} (seeded variants: fragmented TCP replies, close offsets 0/2/4/mid-body, slow-but-answering, connect time-outs, error codes) assigned to every (KDC, transport) endpoint of 1-3 configured KDCs x udp_preference_limit class {1, below the request size, above it} x AS or TGS exchange x seed of the server order; sweep = complete enumeration of the named behaviours for 1-2 KDCs (quick) and 1-3 KDCs (thorough, 143964 assignments); distinct = distinct (assignment with variants, limit class, phase, outcome); non-trivial = at least one endpoint does not simply answer",
+		Rule:       "case = one run: a behaviour from {answers, refuses, closes early, silent, KRB-ERROR, response-too-big on UDP} (seeded variants: fragmented TCP replies, close offsets 0/2/4/mid-body, slow-but-answering, connect time-outs, error codes) assigned to every (KDC, transport) endpoint of 1-3 configured KDCs x udp_preference_limit class {1, below the request size, above it} x AS or TGS exchange x seed of the server order; sweep = complete enumeration of the named behaviours for 1-2 KDCs (quick) and 1-3 KDCs (thorough, 143964 assignments); distinct = distinct (assignment with variants, limit class, phase, outcome); non-trivial = at least one endpoint does not simply answer",
 		SweepQuick: sweepSize(2), SweepThorough: sweepSize(3),
 		SeededQuick: 4000, SeededThorough: 150000,
 		WorkloadProbes: []string{"first-transport-all-dead-second-good", "tcp-reply-fragmented-in-length-prefix", "krb-error-and-good-coexist", "too-big-then-tcp", "nothing-works", "tcp-only-udp-alive", "close-inside-prefix"},
 		Components: map[string]string{
 			"client.Login, GetServiceTicket, ASExchange, TGSExchange, sendToKDC, sendKDCTCP/UDP, dialSendTCP/UDP, sendTCP/UDP, checkForKRBError, config.GetKDCs, krb5.conf parser": "real",
-			"net in client/network.go":                      "shim: simulated transport (connect, segments, datagrams, deadlines on the fake clock)",
-			"KDC":                                           "stub: refkdc reference model",
-			"math/rand global source (server order)":        "real, seeded per run",
-			"DNS SRV discovery of KDCs (dns_lookup_kdc)":    "not simulated: KDCs are always configured",
+			"net in client/network.go":               "shim: simulated transport (connect, segments, datagrams, deadlines on the fake clock)",
+			"KDC":                                    "stub: refkdc reference model",
+			"math/rand global source (server order)": "real, seeded per run",
+			"DNS SRV discovery of KDCs (dns_lookup_kdc)": "not simulated: KDCs are always configured",
 		},
 		Assumptions: []string{
 			"an endpoint that answers after 300ms of latency counts as answering; one that needs an hour counts as silent (no client time-out constant is mirrored)",
